@@ -605,6 +605,19 @@ class Fn:
             callee = self.op_terms(f['indirect'], (block, self.nstmts(block)))
             return T(('call', 'indirect', (callee,) + args, site))
         path = f['path']
+        if path == 'std::boxed::box_assume_init_into_vec_unsafe':
+            # vec![a, b, ..] lowering: Box::new_uninit(); *ptr = [a, b, ..]; box_assume_init_into_vec_unsafe(box)
+            # the array store carries the span of the same vec! invocation
+            sp = self.blocks[block]['tspan']
+            key = (sp['file'], sp['l0'], sp['c0'], sp['l1'], sp['c1'])
+            for bi2, blk2 in enumerate(self.blocks):
+                if blk2['cleanup']:
+                    continue
+                for si2, st2 in enumerate(blk2['stmts']):
+                    if st2['k'] == 'assign' and st2['rv']['k'] == 'agg' and st2['rv'].get('agg') == 'array':
+                        s2 = st2['span']
+                        if (s2['file'], s2['l0'], s2['c0'], s2['l1'], s2['c1']) == key and 'vec' in s2.get('mac', []):
+                            return self.rvalue_terms(st2['rv'], (bi2, si2))
         args = tuple(self.arg_terms(t, j, block) for j in range(len(t['args'])))
         if (path in TRANSPARENT or path in PAYLOAD_KEEP) and args:
             return args[0]
